@@ -1,10 +1,12 @@
 (* C14 entry point.  input = L [A path; tr; A lock; L labels; A second]
      path   0 transport.aclose  1 aclose_forcefully  2 TLS wrap  3 endpoint.aclose  4 AsyncTCPNetworkClient.aclose
             5 _ConnectedClientAPI.aclose  6 client task teardown  7 teardown after the handler called client.aclose()
+            8 AsyncTCPNetworkClient.aclose while send_packet() is still establishing the connection (holding the send lock)
      tr     L [A 0; base] | L [A 1; L [A std; A unwrap_points; A handshake_points; (A mode)?]; base]   (mode: how the harness
             obtains the unwrap suspension points: 1 = unread application data, the close_notify flush blocks)
      base   L [A 0; A leaf; A m; (A 1 = the real asyncio socket adapter, m = 0)?] | L [A 1; send; recv]
-     lock   1: a sender is suspended holding the send lock (and the endpoint's guard)
+     lock   1: a sender is suspended holding the send lock (and the endpoint's guard); 2: a reader is suspended in
+            recv_packet() (no close path takes the receive guard: same as 0 for the model)
      labels 0 complete | 1 OSError | 2 cancel | 3 timed scope expires
      second 1: when the first close is over, close again (same path) with the remaining labels; 2: and a third time
    output = L [A res; L [leaf0; leaf1]; A outer_closing; A api_closing; A used; second; L [fd0; fd1]]   (fd = descriptor released)
@@ -53,6 +55,7 @@ Definition mk_path (code : Z) (t : tr) : option path :=
   | 2 => match t with TTls c b => Some (PWrap c b) | _ => None end
   | 3 => Some (PEndpoint t) | 4 => Some (PClient t) | 5 => Some (PApi t)
   | 6 => Some (PTaskExit t false) | 7 => Some (PTaskExit t true)
+  | 8 => Some (PClientConnecting t)
   | _ => None
   end%Z.
 
